@@ -201,6 +201,17 @@ pub fn eval(ctx: &Ctx, case: &Case) {
                         ctx.violation("Sm2PrivateKey::to_hex_string", &format!("wrong-hex/{}", tag), h.clone(), cj());
                     }
                     same_priv(ctx, "Sm2PrivateKey::from_hex_string", tag, guard(|| Sm2PrivateKey::from_hex_string(&h)), &d, &cj);
+                    // a sign, a blank, an 'x' or a 'g' in place of a hex digit: never a key (integer parsers accept "+b")
+                    for pos in [0usize, 1, 2, 31, 62, 63] {
+                        for ch in ['+', '-', ' ', 'x', 'g', '_'] {
+                            let mut t: Vec<char> = h.chars().collect();
+                            if pos < t.len() {
+                                t[pos] = ch;
+                                let t: String = t.into_iter().collect();
+                                must_reject(ctx, "Sm2PrivateKey::from_hex_string", "non-hex-character", guard(|| Sm2PrivateKey::from_hex_string(&t).map(|_| ())), t.clone(), &cj);
+                            }
+                        }
+                    }
                     // upper case: accepted (then the same key) or refused, never another key and never a panic
                     match guard(|| Sm2PrivateKey::from_hex_string(&h.to_uppercase())) {
                         Guard::Done(Ok(sk2)) if refmodels::util::from_limbs(&sk2.d) != d => ctx.violation("Sm2PrivateKey::from_hex_string", &format!("decodes-to-different-key/uppercase/{}", tag), String::new(), cj()),
